@@ -229,3 +229,27 @@ PROPS["C13"] = {
     "level_note": "commands are called in-process on files in a per-case temp directory; the four percentile estimates are excluded from the union comparison",
     "assumptions": ["every input holds at least one record (an empty file has no detectable encoding)"],
 }
+
+PROPS["C06"] = {
+    "title": "Each result faithfully describes its HTTP exchange",
+    "units": [{"name": "exchange", "pkg": "lib", "run": "^TestC06"}],
+    "rule": "rapid draws 1..3 targets per attack (real, random upper-case and invalid methods; http/https URLs; 0..6 "
+            "headers with arbitrary key case, case-variant duplicates, multi-values, Host; bodies 0..200 KiB) and a "
+            "scripted response per target: status 100..599 with real status texts, canonical response headers, body "
+            "0..300 KiB served in drawn chunk sizes with EOF alone or with the last bytes, known/unknown length, redirect "
+            "chains of 1..12 (301/302/303/307/308) against Redirects in {NoFollow,0,1,3,10}, faults (transport error, "
+            "body read error after k bytes) and max-body in {-1,0,1,len-1,len,len+1,fault offset +-1,large}, chunked "
+            "option, attack name. Non-trivial = (truncation and status >= 400) or fault after >= 1 byte or redirect "
+            "chain or case-variant duplicate header; distinct = distinct case.",
+    "explanation": "Oracle: the fake RoundTripper records the first request per hit (method, URL, body, ContentLength, "
+                   "every target header key with its exact case and values, Host, X-Vegeta-Seq == result seq, "
+                   "X-Vegeta-Attack iff named, chunked) and its bodies count bytes handed out, EOF/error delivery and "
+                   "Close calls; results are compared with a model of the exchange (final status/headers/first max-body "
+                   "bytes/bytes in/out, error empty iff [200,400), failed exchanges have an error and no success code, "
+                   "body read to its end or error and closed).",
+    "technique": "property-based test with scripted fake transport and fault injection against an exchange model (rapid)",
+    "level_text": "generated-input and fault-sequence search through the exported attacker API with test doubles; cannot prove absence",
+    "level_note": "only the canonical 'Host' key is required to set the request host; bodies of redirect responses that "
+                  "net/http itself discards are only required to be closed",
+    "assumptions": ["transports return a non-empty Status text", "one worker, so results arrive in sequence order"],
+}
